@@ -334,6 +334,24 @@ def rule_lookup(ck):
         (o.ok() if good else o.fail('get_rates is called with (%s)' % ', '.join(a[:30] for a in args)))
     else:
         o.fail('target_event_rates does not call get_rates once')
+    # the total returned with the rates is the sum of the very array the rates were looked up in (scaled or not - together)
+    rets = [r for r in returns(t) if isinstance(r.value, ast.Tuple) and len(r.value.elts) == 2]
+    o = ck.ob('C11-D3.total', t, rets[0].value if rets else 'return rates, total', rets[0] if rets else t.node)
+    if len(rets) != 1 or len(calls) != 1:
+        o.fail('target_event_rates does not return (rates, total) from one lookup')
+    else:
+        exk = Expander(P, t, keep={'data'})
+        r0, r1 = exk.expand(rets[0].value.elts[0]), exk.expand(rets[0].value.elts[1])
+        src = kw(calls[0], 'data', 3)
+        src_txt = u(exk.expand(src)) if src is not None else 'self.data'
+        probs = []
+        if not (isinstance(r0, ast.Call) and u(r0.func) == 'self.get_rates'):
+            probs.append('the returned rates are `%s`, not the looked-up rates themselves' % u(r0)[:70])
+        r1s = strip_shape(r1)
+        if not (isinstance(r1s, ast.Call) and call_name(r1s) in ('numpy.sum', '.sum') and
+                (u(r1s.args[0]) if r1s.args else u(r1s.func.value)) == src_txt):
+            probs.append('the returned total is `%s`, not the sum of the array `%s` the rates were looked up in' % (u(r1)[:60], src_txt[:40]))
+        (o.fail('; '.join(probs) + ': per-event rates and forecast total must be scaled together') if probs else o.ok('(get_rates(..., data=D), sum(D))'))
 
 
 def rule_axes(ck):
@@ -390,6 +408,21 @@ def rule_loaders(ck):
             numeric = ('.astype(numpy.float64)' in txt or '.astype(float)' in txt or '.astype(builtins.float)' in txt)
             (o.ok('numeric') if (not is_str_read or numeric) else
              o.fail('the %s come from a file read as strings and are never converted to float: every magnitude lookup / sum then fails or compares text' % nm))
+        # quadkeys are digit strings in which leading zeros matter ('0231' is a tile, 231 is not): the column must be read as text
+        o = ck.ob('C11-D5.qtext', g, 'quadkeys read as text', r[0])
+        qk_src = region.args[0] if isinstance(region, ast.Call) and region.args else None
+        reads = [c_ for c_ in ast.walk(qk_src) if isinstance(c_, ast.Call) and call_name(c_) in ('numpy.genfromtxt', 'numpy.loadtxt', 'pandas.read_csv', 'pandas.read_table')] \
+            if qk_src is not None else []
+        if not reads:
+            o.unknown('cannot find the file read the quadkeys come from')
+        else:
+            bad = []
+            for c_ in reads:
+                dt = kw(c_, 'dtype')
+                if dt is None or u(dt) not in ("'str'", 'builtins.str', "'U'", "'<U'", 'str', "'object'", 'builtins.object'):
+                    bad.append(c_)
+            (o.fail('the quadkeys come from `%s`, which parses the column as numbers (dtype is not str): leading zeros are lost and the '
+                    'cells of the north-western quadrant change identity' % u(bad[0])[:80]) if bad else o.ok("dtype='str'"))
         # region magnitudes are the same object
         o = ck.ob('C11-D5.regionmags', g, 'region magnitudes', r[0])
         rk = kw(region, 'magnitudes', 1) if isinstance(region, ast.Call) else None
